@@ -107,6 +107,7 @@ enum Kind {
 type Mutation {
   bump(by: Int): Int
   diff(a: Int, b: Int): Int
+  sub(a: Int, b: Int): Int
   renamed: String
   find(artist: String, album: String, title: String, year: Int): String
 }
@@ -349,6 +350,10 @@ func (m *Mutation) Bump(by int32) int { return m.N + int(by) }
 // Minus is bound to Mutation.diff with RegisterField; its parameters are in the opposite order of the GraphQL arguments.
 func (m *Mutation) Minus(b int, a int) int { called("Mutation.Minus"); return a - b }
 
+// Sub has the NAME reflection finds by itself (Mutation.sub) but takes its parameters in the opposite order of the GraphQL
+// arguments; RegisterField("Mutation", "sub", "Sub", "b", "a") states that order.
+func (m *Mutation) Sub(b int, a int) int { called("Mutation.Sub"); return a - b }
+
 // FindTrack is bound to Mutation.find with RegisterField; its first three parameters are a rotation of the GraphQL arguments (a permutation that is not its own inverse).
 func (m *Mutation) FindTrack(title string, artist string, album string, year int) string {
 	called("Mutation.FindTrack")
@@ -360,6 +365,19 @@ func (m *Mutation) OtherName() string { return "renamed ok" }
 
 // NewRoot builds a fresh zoo root (cold: nothing lazily registered).
 func NewRoot() (*ggql.Root, *Root, error) {
+	root, r, late, err := NewRootLate()
+	if err == nil {
+		err = late()
+	}
+	if err != nil {
+		return nil, nil, err
+	}
+	return root, r, nil
+}
+
+// NewRootLate is NewRoot with the explicit type and field registrations handed back as a function: an application may
+// register late, after its root has already answered requests (a health check, a warm-up).
+func NewRootLate() (*ggql.Root, *Root, func() error, error) {
 	i2 := &Item{ID: "i2", Size: 2, Tags: []string{"x", "y"}, Kind: "LARGE"}
 	i1 := &Item{ID: "i1", Size: 1, Tags: []string{"a"}, Next: i2, Kind: "SMALL"}
 	q := &Query{Items: []*Item{i1, i2}, Name: "zoo", Count: 2, When: time.Date(2020, 1, 2, 3, 4, 5, 0, time.UTC), Ratio: 0.5}
@@ -368,25 +386,28 @@ func NewRoot() (*ggql.Root, *Root, error) {
 	root := ggql.NewRoot(r)
 	q.root = root
 	if err := root.ParseString(SDL); err != nil {
-		return nil, nil, err
+		return nil, nil, nil, err
 	}
 	if err := root.RegisterType(&BoxIn{}, "Box"); err != nil {
-		return nil, nil, err
+		return nil, nil, nil, err
 	}
-	// explicit type and field registration (the other object types are discovered by name or @go)
-	if err := root.RegisterType(&Mutation{}, "Mutation"); err != nil {
-		return nil, nil, err
+	late := func() error {
+		// explicit type and field registration (the other object types are discovered by name or @go)
+		if err := root.RegisterType(&Mutation{}, "Mutation"); err != nil {
+			return err
+		}
+		if err := root.RegisterField("Mutation", "diff", "Minus", "b", "a"); err != nil {
+			return err
+		}
+		if err := root.RegisterField("Mutation", "find", "FindTrack", "title", "artist", "album", "year"); err != nil {
+			return err
+		}
+		if err := root.RegisterField("Mutation", "sub", "Sub", "b", "a"); err != nil {
+			return err
+		}
+		return root.RegisterField("Mutation", "renamed", "OtherName")
 	}
-	if err := root.RegisterField("Mutation", "diff", "Minus", "b", "a"); err != nil {
-		return nil, nil, err
-	}
-	if err := root.RegisterField("Mutation", "find", "FindTrack", "title", "artist", "album", "year"); err != nil {
-		return nil, nil, err
-	}
-	if err := root.RegisterField("Mutation", "renamed", "OtherName"); err != nil {
-		return nil, nil, err
-	}
-	return root, r, nil
+	return root, r, late, nil
 }
 
 // Requests is a fixed mix of valid requests that covers every first-use path
@@ -415,6 +436,7 @@ var Requests = []struct {
 	{`query Q($s: Boolean = true) { name @skip(if: $s) count @include(if: $s) }`, nil},
 	{`mutation { bump(by: 3) }`, nil},
 	{`mutation { diff(a: 10, b: 3) renamed }`, nil},
+	{`mutation { sub(a: 10, b: 3) s2: sub(b: 1) }`, nil},
 	{`mutation { find(album: "b", year: 1999, artist: "a", title: "t") }`, nil},
 	{`mutation($x: Int = 2) { d1: diff(b: $x, a: 1) d2: diff(a: $x) }`, nil},
 	{`{ pick(i: 1) { id } }`, nil},
